@@ -290,6 +290,59 @@ def oracle_real(case) -> Result:
     return res
 
 
+# ----------------------------------------------------------------------------------------
+# real SuperNet models (Gumbel sampling, training mode): the cost the regularizer sees is the cost
+# the model reports for the coefficients sampled by the last forward pass
+# ----------------------------------------------------------------------------------------
+@st.composite
+def sn_real_cases(draw):
+    from .. import snutil as su
+    spec = draw(su.sn_specs(max_sn=2, functional_tail=False, max_branches=4))
+    for n in su.sn_nodes(spec):
+        n['gumbel'] = draw(st.booleans())
+    return {'spec': spec, 'wseed': draw(st.integers(0, 20)), 'aseed': draw(st.integers(0, 500)),
+            'strength': draw(pos), 'metric': draw(st.sampled_from(['params', 'ops'])),
+            'train': draw(st.booleans()), 'n_epochs': draw(st.integers(1, 20)),
+            'epoch_frac': draw(st.floats(0, 1))}
+
+
+def oracle_sn_real(case) -> Result:
+    import torch
+    import plinio.cost as pc
+    from plinio.regularizers import BaseRegularizer, DUCCIO
+    from .. import snutil as su
+    res = Result()
+    spec = case['spec']
+    net, sn, x0 = su.build_sn(spec, case['wseed'], cost={'params': pc.params, 'ops': pc.ops})
+    su.set_winner_coefficients(sn, spec, {n['id']: 0 for n in su.sn_nodes(spec)}, case['aseed'])
+    sn.train(bool(case['train']))
+    torch.manual_seed(case['aseed'])
+    with torch.no_grad():
+        if must(res, 'forward', ng.call, sn, ng.make_input(spec, 1, batch=2)) is None:
+            return res
+    name, s = case['metric'], case['strength']
+    c = float(sn.get_cost(name))
+    v = must(res, 'base-regularizer', BaseRegularizer(name, s), sn)
+    if v is None:
+        return res
+    if not _close(float(v), s * c, 1e-5):
+        res.bad('base-regularizer-not-strength-times-cost', value=float(v), cost=c, strength=s,
+                model='supernet', training=bool(case['train']))
+    # target = the cost the model has right now: the penalty is exactly zero
+    reg = DUCCIO({name: torch.tensor(c, dtype=torch.float32)},
+                 final_strengths=(torch.tensor(s, dtype=torch.float32),))
+    ne = case['n_epochs']
+    d = must(res, 'duccio', reg, sn, int(round(case['epoch_frac'] * ne)), ne)
+    if d is not None and float(d) != 0.0:
+        res.bad('penalty-zero-iff-all-constraints-hold', value=float(d), cost=c, target=c,
+                model='supernet', training=bool(case['train']))
+    res.nontrivial = any(n.get('gumbel') for n in su.sn_nodes(spec)) and bool(case['train'])
+    res.ev('metric:' + name, 'supernet', 'training-mode' if case['train'] else 'eval-mode',
+           'gumbel' if any(n.get('gumbel') for n in su.sn_nodes(spec)) else 'softmax')
+    res.obs = {'cost': c, 'base': float(v)}
+    return res
+
+
 @st.composite
 def base_cases(draw):
     return {'cost': draw(st.floats(min_value=0, max_value=1e9)),
@@ -336,8 +389,12 @@ CHECK = Check(
              budget={'quick': 500, 'thorough': 3000}, shards={'quick': 1, 'thorough': 4}),
         Part('real-pit', oracle_real, strategy=real_cases(),
              budget={'quick': 120, 'thorough': 600}, shards={'quick': 1, 'thorough': 16}),
+        Part('real-supernet', oracle_sn_real, strategy=sn_real_cases(),
+             budget={'quick': 60, 'thorough': 400}, shards={'quick': 1, 'thorough': 16}),
     ],
-    rule=("duccio-stub: stub DNAS objects with 1..3 named costs each above / at / below its target, "
+    rule=("real-supernet: generated SuperNets (soft-max or Gumbel blocks, training or eval mode) "
+          "after one forward pass: BaseRegularizer == strength x the cost read just before, DUCCIO "
+          "with the target set to that cost == 0. duccio-stub: stub DNAS objects with 1..3 named costs each above / at / below its target, "
           "final strengths given (positive float32 tensors) or derived from task_loss, n_epochs "
           "1..50, epoch 0..n_epochs; reference = sum_i s_i * min(1, 0.01 + 0.99*epoch/(n/2)) * "
           "relu(cost_i - target_i) in float64 plus zero-iff, growth under a bumped excess and "
